@@ -404,7 +404,7 @@ def shards(tier, seed):
     for target in TARGETS:
         for i in range(2):
             out.append(
-                (f"gen_{target}_{i}", "shard_generated", {"target": target, "max_examples": 900 if big else 60})
+                (f"gen_{target}_{i}", "shard_generated", {"target": target, "max_examples": 2500 if big else 60})
             )
     nparts = 6
     for part in range(nparts):
